@@ -175,9 +175,25 @@ def strings(k):
             yield "".join(t)
 
 
+def long_payloads(tier):
+    """long literals (line-wrapping / chunking logic) with an escape-needing character at every offset of a
+    window, and payloads behind every character Python's tokenizer treats as a line end"""
+    out = []
+    step = 1 if tier == "thorough" else 1
+    for n in range(60, 132, step):
+        for c in ("\\", "\t", "\r", "\x01", "'"):
+            out.append("a" * n + c + f"'+str({S}())+'")
+    for n in (200, 500, 1000, 5000):
+        out.append("b" * n + "\\" + f"\'+str({S}())+\'")
+        out.append(("\\" * n) + f"'+str({S}())+'")
+    for c in ("\r", "\x0b", "\x0c", "\x1c", "\x1d", "\x1e", "\x85", "\u2028", "\u2029"):
+        out += [f"x{c}{S}()", f"x{c}import os{c}{S}()", f"{c}{S}()#", f"x'{c}{S}(){c}'"]
+    return out
+
+
 def run(res, tier):
     k = 3 if tier == "quick" else 4
-    units = list(dict.fromkeys(PAYLOADS + list(strings(k))))
+    units = list(dict.fromkeys(PAYLOADS + long_payloads(tier) + list(strings(k))))
     for w in pmap(_work, permuted(units, "c13"), chunk=8):
         res.merge_worker(w)
     res.set("states", res.cov.get("programs", 0))
